@@ -240,6 +240,14 @@ func (s Session) coq() string {
 	for i, it := range s.Items {
 		o := s.Obs[i]
 		var ci string
+		if it.Kind == "http" && len(it.Body) <= 8000 && json.Valid(it.Body) && !seen[string(it.Body)] && (it.Path == "/api/destinations" || it.Path == "/api/streams") {
+			// HTTP bodies go through the same inner decoding: what the real json.Unmarshal made of them is the
+			// expected value of the model's decoders as well (very long bodies excepted: the parser of Base/Json.v
+			// counts the length of a string literal in unary)
+			seen[string(it.Body)] = true
+			destTab = append(destTab, lib.Tuple(hx(it.Body), decDest(it.Body)))
+			streamTab = append(streamTab, lib.Tuple(hx(it.Body), decStream(it.Body)))
+		}
 		if it.Kind == "pub" {
 			ci = "IPub"
 		} else if it.Kind == "http" {
@@ -309,11 +317,21 @@ func (s Session) coq() string {
 			probe(o.Body)
 		}
 	}
-	// whether the real json.Unmarshal into vw.Command accepted each command sent
+	// what the real json.Unmarshal(msg, &vw.Command) made of each command message: the model's decode must
+	// produce exactly this from the bytes
 	decoded := []string{}
 	for _, it := range s.Items {
 		if it.Kind == "cmd" {
-			decoded = append(decoded, lib.Tuple(hx(it.Msg), lib.Bool(decodeCmd(it.Msg).OK)))
+			d := decodeCmd(it.Msg)
+			exp := "None"
+			if d.OK {
+				rule := "None"
+				if d.HasRule {
+					rule = "(Some " + hx(d.Raw) + ")"
+				}
+				exp = "(Some " + lib.App("mkc", hxs(d.Cmd.Verb), hxs(d.Cmd.What), hxs(d.Cmd.Which), rule) + ")"
+			}
+			decoded = append(decoded, lib.Tuple(hx(it.Msg), exp))
 		}
 	}
 	return lib.Tuple(hxs(s.API), lib.List(destTab), lib.List(streamTab), lib.List(items), lib.List(probes), lib.List(decoded))
@@ -876,7 +894,7 @@ func main() {
 		res.Sample(orig)
 		res.Cases = append(res.Cases, orig)
 	}
-	hdr := "From Coq Require Import Uint63.\nFrom Relay Require Import Base.Prelude Base.AList Model.AdminJson Model.AdminApi Corr.C18."
+	hdr := "From Coq Require Import Uint63.\nFrom Relay Require Import Base.Prelude Base.AList Model.AdminJson Model.AdminApi Model.AdminDecode Corr.C18."
 	if _, err := lib.WriteShards(a.Out, hdr, "case", coq, res.ShardSize); err != nil {
 		fmt.Fprintln(os.Stderr, err)
 		os.Exit(2)
